@@ -6,6 +6,8 @@ use serde_json::Value;
 pub mod c01;
 pub mod c04;
 pub mod c06;
+pub mod c14;
+pub mod c18;
 
 #[derive(Clone, Copy, Debug, PartialEq)]
 pub enum Tier {
@@ -39,6 +41,14 @@ pub trait Prop: Sync {
     fn profiles(&self) -> Vec<&'static str> {
         vec!["fast"]
     }
+    /// compare per-index transcripts between build profiles (C18)
+    fn compare_profiles(&self) -> bool {
+        false
+    }
+    /// spec to put into a replay file for a profile divergence at `index`
+    fn divergence_spec(&self, _ctx: &Ctx, _index: u64) -> Value {
+        serde_json::json!({})
+    }
     fn run_one(&self, ctx: &Ctx, index: u64) -> RunReport {
         self.run_chunk(ctx, &[index]).pop().unwrap()
     }
@@ -64,6 +74,8 @@ pub fn lookup(id: &str) -> Option<Box<dyn Prop>> {
         "C04" => Some(Box::new(c04::C04)),
         "C05" => Some(Box::new(c01::C05)),
         "C06" => Some(Box::new(c06::C06)),
+        "C14" => Some(Box::new(c14::C14)),
+        "C18" => Some(Box::new(c18::C18)),
         _ => None,
     }
 }
